@@ -309,6 +309,13 @@ def same_shape_histories(rng, nrand=40, kind="history-same-shape"):
                              "same-shape/%s-probes" % view, kind, view=view))
             out.append(_hist(net(["A >> 2 A", "2 A >> 3 A"]), [["probe", 3], ["coef", "r_2", "r", "A", 1], ["probe", 0]], style,
                              "same-shape/%s-probe-edit-probe" % view, kind, view=view))
+        # same numbers of complexes, arcs, classes, same class sizes: only the SHAPE of the complex graph changes
+        out.append(_hist(net(["A >> B", "C >> B"]), [["repl", ["r_2", "r", P("A"), P("C")]], ["repl", ["r_2", "r", P("C"), P("B")]]], style,
+                         "same-shape/regular-flip", kind))                       # one terminal complex -> fork with two -> back
+        out.append(_hist(net(["A >> 2 A", "2 A >> 3 A", "B >> C"]), [["repl", ["r_2", "r", P("2 A"), P("A")]], ["repl", ["r_2", "r", P("3 A"), P("2 A")]]],
+                         style, "same-shape/ladder-turned", kind))
+        out.append(_hist(net(["A + B >> C", "C >> D", "D >> A + B"]), [["repl", ["r_3", "r", P("A + B"), P("D")]], ["coef", "r_1", "l", "A", 2]],
+                         style, "same-shape/cycle-to-dag", kind))
         for view in ("hyper", "bip_int", "bip_str"):   # coefficient edits that change the RANK of S (and nothing countable)
             out.append(_hist(net(["A >> B", "2 A >> 2 B"]), [["coef", "r_2", "r", "B", 1], ["coef", "r_2", "r", "B", 2]], style,
                              "same-shape/%s-rank-flip" % view, kind, view=view))
